@@ -48,6 +48,7 @@ fn focus_cuts(len: usize) -> Vec<usize> {
 }
 
 fn check_decode(s: &mut Stats, bytes: &[u8], want: &Result<FrameParts, Vec<WebsocketError>>, label: &str, depth: Depth) {
+    let _call = crate::report::enter(bytes);
     let focus = focus_cuts(bytes.len());
     let pl = if bytes.len() <= 24 { plans(bytes.len(), depth, None) } else { plans(bytes.len(), depth, Some(&focus)) };
     for cuts in pl {
